@@ -280,14 +280,14 @@ class FieldMeta(type):
                     raise TypeError(
                         f"Unsupported field type in definition: {wrap_val(val)}"
                     )
+                if val in FieldMeta._registry:
+                    return FieldMeta._registry[val]
                 the_class = val.__name__
-                if the_class in FieldMeta._registry:
-                    return FieldMeta._registry[the_class]
                 short_hash = hashlib.sha256(the_class.encode("utf-8")).hexdigest()[:8]
                 new_name = f"Field_{the_class}_{short_hash}"
                 class_as_field = create_typed_field(new_name, val)
                 class_as_field.__getstate__ = get_state
-                FieldMeta._registry[the_class] = class_as_field
+                FieldMeta._registry[val] = class_as_field
                 return class_as_field()
 
 
